@@ -74,11 +74,19 @@ class C12(Hist1Prop):
                 d = {"op": "copy", "h": 0, "out": 2}
             else:
                 d["mask"] = [True] + [rng.random() < 0.5 for _ in range(nb - 1)]
+        nested = rng.random() < 0.3
+        if nested:
+            # a nested (mutable) custom meta-data entry on the source before the derivation: editing it INSIDE, through one of
+            # the objects, is a metadata edit too
+            ops.append({"op": "set_meta", "h": 0, "key": "tags", "value": ["a", {"run": 1}]})
         ops.append(d)
         for _ in range(rng.randint(1, 4)):
             tgt = rng.choice([0, 2, 2, 1])
-            ops.append(self.mutation1(rng, tgt, b, pairs, w))
-        return {"kind": "hist1", "ops": ops, "tags": ["deriv:" + deriv], "tolerance": True}
+            if nested and rng.random() < 0.5 and tgt != 1:
+                ops.append({"op": "append_meta", "h": tgt, "key": "tags", "value": "b", "maybe_refused": True})
+            else:
+                ops.append(self.mutation1(rng, tgt, b, pairs, w))
+        return {"kind": "hist1", "ops": ops, "tags": ["deriv:" + deriv] + (["nested_meta"] if nested else []), "tolerance": True}
 
     # ------------------------------------------------------------------ a collection over an ADAPTIVE binning
     def gen_coll_adaptive(self, rng):
@@ -394,7 +402,7 @@ class C12(Hist1Prop):
             writes = {op.get("out")} if "out" in op and op["op"] not in ("merge", "normalize") else set()
             if op["op"] in ("merge", "normalize", "partial_normalize"):
                 writes = {op["h"]} if op.get("inplace") else {op.get("out")}
-            if op["op"] in ("fill", "fill_n", "iadd", "isub", "imul", "idiv", "set_dtype", "set_adaptive"):
+            if op["op"] in ("fill", "fill_n", "iadd", "isub", "imul", "idiv", "set_dtype", "set_adaptive", "set_meta", "append_meta"):
                 writes = {op["h"]}
             for i, (x, y) in enumerate(zip(before, after)):
                 if i in writes or x is None or y is None:
@@ -403,6 +411,9 @@ class C12(Hist1Prop):
                 if vx != vy:
                     ch = [f for f in fields if vx[f] != vy[f]]
                     fails.append(f"not_independent: step {k} ({op['op']} on register {op.get('h', op.get('a'))}) changed register {i}: fields {ch}")
+                elif x.get("_meta") != y.get("_meta"):
+                    fails.append(f"not_independent: step {k} ({op['op']} on register {op.get('h', op.get('a'))}) changed the meta data of "
+                                 f"register {i}: {x.get('_meta')} -> {y.get('_meta')}")
             for i, y in enumerate(after):
                 if y is not None and not y["_shape_ok"]:
                     fails.append(f"illformed: register {i} has inconsistent shapes after step {k} ({op['op']})")
